@@ -35,4 +35,7 @@ def wires : List Wire := [
 def defaultDispatcher : List String := ["_not_impl", "_not_impl_unary", "add=_not_impl", "and_=_not_impl", "floordiv=_not_impl", "mul=_not_impl", "neg=_not_impl_unary", "not_=_not_impl_unary", "or_=_not_impl", "sub=_not_impl", "truediv=_not_impl", "xor=_not_impl"]
 def numpyDispatcher : List String := ["__init__", "_promote", "add", "and_", "floordiv", "mul", "neg", "not_", "or_", "sub", "truediv", "xor"]
 
+/-- instance attributes the numpy-like dispatcher ever assigns (`self.<attr> = ...` anywhere in the class) -/
+def numpyDispatcherAttrs : List String := ["constant_promotion", "op", "type_promotion"]
+
 end Generated.VarDunders
